@@ -47,6 +47,7 @@ typedef struct unit {
 } unit_t;
 
 static unit_t g_u[MAXU];
+static int g_u_ready[MAXU]; /* atomic: the slot is completely initialised (set by launch) */
 static int g_nu; /* atomic */
 static int g_cap;
 static ABT_eventual g_ev[MAXEV];
@@ -106,6 +107,7 @@ static unit_t *new_unit(vrt_rng *r, int parent, int depth)
 static int launch(unit_t *u)
 {
     int rc;
+    __atomic_store_n(&g_u_ready[u->id], 1, __ATOMIC_RELEASE);
     ABT_pool pool = g_pools[u->pool];
     ABT_thread *ph = (u->kind == K_ULT_NAMED || u->kind == K_TASK_NAMED) ? &u->th : NULL;
     vrt_count(c_by_kind[u->kind], 1);
@@ -523,6 +525,7 @@ static void run_forest(vrt_rng *r, int idx, int max_es, int cap)
     VRT_ABT(ABT_init(0, NULL));
     forest_world(r, max_es, desc, sizeof(desc));
     g_nu = 0;
+    memset(g_u_ready, 0, sizeof(g_u_ready));
     g_nev = 0;
     g_ev_users = 0;
     g_cap = 50 + (int)vrt_range(r, (uint64_t)cap);
@@ -594,6 +597,10 @@ static void run_forest(vrt_rng *r, int idx, int max_es, int cap)
         int nu = __atomic_load_n(&g_nu, __ATOMIC_SEQ_CST);
         for (int k = 0; k < nu; k++) {
             unit_t *u = &g_u[k];
+            /* slots that another stream is filling in right now belong to
+             * pools of other streams */
+            if (!__atomic_load_n(&g_u_ready[k], __ATOMIC_ACQUIRE))
+                continue;
             uint32_t mask = g_serve[u->pool];
             if (mask == (1u << i)) {
                 vrt_count(c_after_xjoin, 1);
@@ -1751,7 +1758,8 @@ static struct {
     ABT_pool pools[3];
     int npools;
     int replace_kind;
-    int replaced;    /* atomic */
+    int replaced;    /* atomic: number of completed replacements */
+    int expect_replaced;
 } g_jm;
 static int c_jm_replace2, c_jm_replace_own;
 static int c_jmscen, c_jm_multi, c_jm_replace, c_jm_revive, c_jm_units;
@@ -1764,16 +1772,14 @@ static void jm_unit(void *arg)
 }
 static void jm_replacer(void *arg)
 {
-    /* wait until the join has been issued, then replace the main scheduler of
-     * the stream this unit runs on */
-    while (!__atomic_load_n(&g_jm.go, __ATOMIC_SEQ_CST))
-        ABT_thread_yield();
-    for (int i = 0; i < 20; i++)
+    /* replace the main scheduler of the stream this unit runs on, after a few
+     * scheduling points; the join of the stream follows right after */
+    for (int i = 0; i < 5; i++)
         ABT_thread_yield();
     ABT_xstream xs;
     VRT_ABT(ABT_self_get_xstream(&xs));
     VRT_ABT(ABT_xstream_set_main_sched_basic(xs, (ABT_sched_predef)g_jm.replace_kind, g_jm.npools, g_jm.pools));
-    __atomic_store_n(&g_jm.replaced, 1, __ATOMIC_SEQ_CST);
+    __atomic_fetch_add(&g_jm.replaced, 1, __ATOMIC_SEQ_CST);
     __atomic_fetch_add((int *)arg, 1, __ATOMIC_SEQ_CST);
 }
 /* variant 3: two units of the stream replace its main scheduler one right after
@@ -1794,6 +1800,7 @@ static void jm_replacer2(void *arg)
         pools[n++] = g_jm.pools[i];
     VRT_ABT(ABT_self_get_xstream(&xs));
     VRT_ABT(ABT_xstream_set_main_sched_basic(xs, (ABT_sched_predef)a->kind, n, pools));
+    __atomic_fetch_add(&g_jm.replaced, 1, __ATOMIC_SEQ_CST);
     __atomic_fetch_add(a->ran, 1, __ATOMIC_SEQ_CST);
 }
 static void jm_replacer_own(void *arg)
@@ -1802,12 +1809,18 @@ static void jm_replacer_own(void *arg)
     ABT_xstream xs;
     VRT_ABT(ABT_self_get_xstream(&xs));
     VRT_ABT(ABT_xstream_set_main_sched_basic(xs, (ABT_sched_predef)a->kind, 1, &a->first));
+    __atomic_fetch_add(&g_jm.replaced, 1, __ATOMIC_SEQ_CST);
     __atomic_fetch_add(a->ran, 1, __ATOMIC_SEQ_CST);
 }
 static void *jm_joiner(void *arg)
 {
     ABT_xstream xs = (ABT_xstream)arg;
     __atomic_store_n(&g_jm.go, 1, __ATOMIC_SEQ_CST);
+    /* ABT_xstream_set_main_sched and ABT_xstream_join are documented as not
+     * thread safe with respect to the stream: the join starts only after the
+     * units of this scenario have finished replacing the main scheduler */
+    while (__atomic_load_n(&g_jm.replaced, __ATOMIC_SEQ_CST) < g_jm.expect_replaced && vrt_num_violations() == 0)
+        sched_yield();
     vrt_call_begin("ABT_xstream_join (joinmix)");
     VRT_ABT(ABT_xstream_join(xs));
     vrt_call_end();
@@ -1887,6 +1900,7 @@ static void run_joinmix(vrt_rng *r, int idx)
         nrep = 2;
         vrt_count(c_jm_replace2, 1);
     }
+    g_jm.expect_replaced = variant == 1 ? 1 : variant == 3 ? 2 : variant == 4 ? 1 : 0;
     VRT_ABT(ABT_xstream_create_basic((ABT_sched_predef)sched, g_jm.npools, g_jm.pools, ABT_SCHED_CONFIG_NULL, &victim));
     if (vrt_range(r, 2))
         vrt_sleep_us((unsigned)vrt_range(r, 200));
@@ -2515,10 +2529,17 @@ static void sr_unit(void *arg)
 }
 /* a unit that blocks, is resumed later and still has scheduling points ahead */
 static ABT_eventual g_sr_ev;
+static unsigned char g_sr_what[64], g_sr_sk[64], g_sr_auto[64];
+static int g_sr_started[64];
+static ABT_thread g_sr_th[64];
+static ABT_pool g_sr_pool[64];
 static int c_sr_blockers, c_sr_kind[5];
 static void sr_blocker(void *arg)
 {
+    ABT_self_get_thread(&g_sr_th[(int *)arg - g_sr_runs]);
+    __atomic_store_n(&g_sr_started[(int *)arg - g_sr_runs], 1, __ATOMIC_SEQ_CST);
     VRT_ABT(ABT_eventual_wait(g_sr_ev, NULL));
+    __atomic_store_n(&g_sr_started[(int *)arg - g_sr_runs], 2, __ATOMIC_SEQ_CST);
     int n = 1 + (int)(vrt_hash64((uint64_t)(uintptr_t)arg) % 3);
     for (int i = 0; i < n; i++)
         ABT_thread_yield();
@@ -2554,6 +2575,11 @@ static void run_stackrace(vrt_rng *r, int idx)
         int k = (int)vrt_range(r, 3);
         for (int j = 0; j < k && nu < 64; j++, nu++) {
             unsigned what = (unsigned)vrt_range(r, 3);
+            g_sr_what[nu] = (unsigned char)what;
+            g_sr_sk[nu] = (unsigned char)sk;
+            g_sr_auto[nu] = (unsigned char)automatic;
+            g_sr_started[nu] = 0;
+            g_sr_pool[nu] = p;
             if (what == 0) {
                 VRT_ABT(ABT_thread_create(p, sr_blocker, &g_sr_runs[nu], ABT_THREAD_ATTR_NULL, NULL));
                 nblockers++;
@@ -2587,8 +2613,23 @@ static void run_stackrace(vrt_rng *r, int idx)
         VRT_ABT(ABT_xstream_free(&xs[i]));
     }
     for (int i = 0; i < nu; i++)
-        VRT_CHECK(g_sr_runs[i] == 1, "stacked:not-exactly-once", "unit %d of a stacked scheduler ran %d times (units that "
-                  "block on an eventual, are resumed and yield are among them)", i, g_sr_runs[i]);
+        if (g_sr_runs[i] != 1 && g_sr_what[i] == 0 && g_sr_started[i] == 1) {
+            ABT_thread_state st = (ABT_thread_state)-1;
+            ABT_bool ready = ABT_FALSE;
+            size_t sz = 99, tot = 99;
+            ABT_thread_get_state(g_sr_th[i], &st);
+            ABT_eventual_test(g_sr_ev, NULL, &ready);
+            ABT_pool_get_size(g_sr_pool[i], &sz);
+            ABT_pool_get_total_size(g_sr_pool[i], &tot);
+            fprintf(stderr, "DIAG unit %d: thread state %d (0 READY 1 RUNNING 2 BLOCKED 3 TERMINATED), eventual ready %d, its pool size "
+                    "%zu total %zu\n", i, (int)st, (int)ready, sz, tot);
+        }
+    for (int i = 0; i < nu; i++)
+        VRT_CHECK(g_sr_runs[i] == 1, "stacked:not-exactly-once", "unit %d of a stacked scheduler ran %d times (kind %s, progress "
+                  "%d [0 not started, 1 waiting, 2 resumed], stacked scheduler kind %d [0 basic 1 prio 2 randws 3 default 4 "
+                  "basic_wait], automatic %d, %d host streams)", i, g_sr_runs[i],
+                  g_sr_what[i] == 0 ? "blocker" : g_sr_what[i] == 1 ? "ULT" : "tasklet", g_sr_started[i], g_sr_sk[i],
+                  g_sr_auto[i], nes);
     VRT_ABT(ABT_eventual_free(&g_sr_ev));
     /* every stacked scheduler has finished; the ones that are not automatic
      * are released by the user */
